@@ -246,6 +246,25 @@ def run_greedy(rep, max_cur, max_new, max_pool):
                             if got != want:
                                 rfail('_greedy_select_population.pooled', 'multiset differs from the serial outcome',
                                       {'current': list(ccur), 'new': list(cnew), 'mode': mode, 'order': list(order)}, got)
+                            elif n <= 3:
+                                # the next cycle on the same instance: the incumbents now stand in completion order
+                                o._current_cycle = 2
+                                inc = sorted(a.cost for a in o._population)
+                                new2 = [mk_agent(('m', i), c) for i, c in enumerate(cnew[::-1])]
+                                want2 = sorted(min(c_, n_) for c_, n_ in zip(inc, sorted(cnew)))
+                                pools.PLAN['order'] = list(order)
+                                pools.PLAN['assign'] = list(order)
+                                try:
+                                    o._greedy_select_population(new2)
+                                finally:
+                                    pools.PLAN['order'] = pools.PLAN['assign'] = None
+                                got2 = sorted(a.cost for a in o._population)
+                                if got2 != want2:
+                                    rfail('_greedy_select_population.pooled', 'second consecutive call (cycle 2) differs from '
+                                          'the element-wise greedy outcome on the cost-sorted populations',
+                                          {'current': list(ccur), 'new': list(cnew), 'mode': mode, 'order': list(order)},
+                                          [got2, want2])
+                                n_sched += 1
                             n_sched += 1
                             dsched.add((tuple(sc), tuple(sn), mode, order))
                             if psample is None and n == 3 and order != tuple(range(n)):
